@@ -253,6 +253,49 @@ def v_emnist(p):
   p.verify('emnist.domain_id', eng, body)
 
 
+def v_cifar_wrapper(p):
+  """preprocess_batch_tff is preprocess_image_tff on 'x' with (crop_height, crop_width, distort) in that order, 'y' unchanged."""
+  ex = p.extract(CI, 'preprocess_batch_tff')
+  h, w = z3.Ints('crop_height crop_width')
+  dist = z3.Bool('distort')
+  rec = {}
+
+  class Tok(Val):
+    def __init__(self, name):
+      self.name = name
+
+  class Ex(Val):
+    def getitem(self, ctx, idx):
+      return Tok(f'examples[{idx!r}]')
+
+  def image(ctx, *args, **kw):
+    rec['args'], rec['kw'] = args, kw
+    return Tok('image')
+  eng = Engine({'preprocess_image_tff': Handler(image, 'preprocess_image_tff')})
+
+  def body(ctx):
+    rec.clear()
+    ctx.model_vars.update(crop_height=h, crop_width=w)
+    kind, r = eng.run_function(ctx, ex.funcv(), [Ex(), h, w, dist])
+    ctx.oblige('cifar.wrapper.noraise', kind == 'return')
+    if kind != 'return':
+      return
+    sig = ['images', 'crop_height', 'crop_width', 'distort']
+    got = dict(zip(sig, rec.get('args', ())))
+    got.update(rec.get('kw', {}))
+    ok = isinstance(got.get('images'), Tok) and got['images'].name == "examples['x']" and len(got) == 4
+    ctx.oblige('cifar.wrapper.args', z3.And(z3.BoolVal(bool(ok)), to_z3(got.get('crop_height', -1)) == h,
+                                            to_z3(got.get('crop_width', -1)) == w,
+                                            to_z3(got.get('distort', False)) == dist) if ok else False,
+               detail="the wrapper calls preprocess_image_tff(examples['x'], crop_height, crop_width, distort): height and width "
+                      'are not swapped (non-square crops)')
+    items = dict(r.cell(ctx).items) if isinstance(r, Ref) and hasattr(r.cell(ctx), 'items') else {}
+    ctx.oblige('cifar.wrapper.result', set(items) == {'x', 'y'} and isinstance(items.get('x'), Tok) and items['x'].name == 'image'
+               and isinstance(items.get('y'), Tok) and items['y'].name == "examples['y']",
+               detail="result = {'x': processed images, 'y': labels unchanged}")
+  p.verify('cifar100.preprocess_batch_tff', eng, body)
+
+
 def build(p):
   D = 'native/C20.py'
   p.native('', D, 'packaged')
@@ -270,6 +313,7 @@ def build(p):
   v_table(p)
   v_ids(p)
   v_cifar(p)
+  v_cifar_wrapper(p)
   v_emnist(p)
   from . import C20_join
   C20_join.build(p)
